@@ -343,6 +343,15 @@ pub fn names(cx: &mut Ctx, args: &Args, rng: &mut Rng) -> i32 {
 }
 
 /// storage images around drop_in_place
+#[cfg(any(target_arch = "x86_64", target_arch = "x86"))]
+fn hw_aes() -> bool {
+    std::is_x86_feature_detected!("aes") && std::is_x86_feature_detected!("sse2")
+}
+#[cfg(not(any(target_arch = "x86_64", target_arch = "x86")))]
+fn hw_aes() -> bool {
+    false
+}
+
 pub fn zeroize(cx: &mut Ctx, args: &Args, rng: &mut Rng) -> i32 {
     let nkeys = args.num("keys", 4) as usize;
     let force_off = args.get("force-off") == Some("1");
@@ -379,7 +388,16 @@ pub fn zeroize(cx: &mut Ctx, args: &Args, rng: &mut Rng) -> i32 {
                         }
                     }
                 }
-                cx.emit(json!({"ev":"zend","type":name,"route":route.name(),"nkeys":keys.len(),"klen":ksz,"zeroize":cfg!(feature = "zeroize")}));
+                // which arm of the AES autodetect union is live in this run (a fact about the build and the CPU, for the spec's
+                // notion of the instance's own bytes): "none" = no union in this build
+                let arm = if cfg!(aes_force_soft) || cx.types[ti].family != "AES" {
+                    "none"
+                } else if force_off || !hw_aes() {
+                    "soft"
+                } else {
+                    "hw"
+                };
+                cx.emit(json!({"ev":"zend","type":name,"route":route.name(),"nkeys":keys.len(),"klen":ksz,"arm":arm,"zeroize":cfg!(feature = "zeroize")}));
                 cx.end();
             }
         }
